@@ -12,7 +12,7 @@
     - asks every node (itself included) that owns at least one requested backend
       ([sub_backends], in the node's backend order; a node without any is skipped)
       for the SAME request restricted to these backends, with Offset 0 and
-      Limit := Limit + Offset (no Limit if the client sent none or [Limit: 0]);
+      Limit := Limit + Offset (no Limit if the client sent none; [Limit: 0] gives Limit := Offset);
       partner nodes are asked in wrapped_json, the local part keeps the client's
       output format ([node_fmt]); the sub request is answered by the ordinary
       single node engine ([data_result], [failed_keys]; for Stats requests the raw
@@ -54,10 +54,11 @@ Definition requested (rq : request) (id : str) : bool :=
 Definition sub_backends (node : dataset) (rq : request) : list str :=
   filter (requested rq) (map b_key node).
 
-(** Limit of the sub requests: [req.Limit != nil && *req.Limit != 0] -> Limit + Offset *)
+(** Limit of the sub requests: [req.Limit != nil] -> Limit + Offset, also for [Limit: 0]
+    (lmd commit a624722; before it a [Limit: 0] request was sent without limit) *)
 Definition node_limit (rq : request) : option Z :=
   match rq_limit rq with
-  | Some l => if Z.eqb l 0 then None else Some (l + rq_offset rq)%Z
+  | Some l => Some (l + rq_offset rq)%Z
   | None => None
   end.
 
